@@ -161,6 +161,9 @@ pub fn judge(h: &History, recs: &[StepRec]) -> Result<u32, Failure> {
             if let Verdict::Accept { fopts, fport, plain, .. } = &d.verdict {
                 let mut reqs = super::c08::parse_reqs(fopts);
                 if *fport == Some(0) {
+                    if !reqs.is_empty() {
+                        reqs.push(super::c08::Req::Silent(0)); // two command streams: blocks do not span them
+                    }
                     reqs.extend(super::c08::parse_reqs(plain));
                 }
                 awaiting = if reqs.iter().any(|q| matches!(q, super::c08::Req::LinkAdr { .. })) { Some(reqs) } else { None };
